@@ -118,87 +118,120 @@ def replay_run(sc, schedule):
     return datarun.run_scenario(sc, ch, eager=eager)
 
 
+def _digest(r, pid, src):
+    """everything the parent needs from one run, as plain data"""
+    F = datarun.Facts(r)
+    viol = []
+    for detail, key in datarun.ORACLES[pid](r, F):
+        viol.append({'case': {'scenario': r.sc.describe(), 'schedule': [c for c, _ in r.taken], 'source': src},
+                     'detail': detail, 'key': dict(key), 'kind': 'schedule'})
+    if r.crashes:
+        viol.append({'case': {'scenario': r.sc.describe(), 'schedule': [c for c, _ in r.taken], 'source': src},
+                     'detail': 'a library thread / pool job died with %r' % (r.crashes[0],), 'key': {'kind': 'crash'}, 'kind': 'schedule'})
+    return {'prep': datarun.prepare(r), 'viol': viol, 'status': r.status, 'ntaken': len(r.taken), 'steps': len(r.trace),
+            'lines': [p[3] for p in F.puts][:12]}
+
+
+def _work(job):
+    """worker process: one shard of the exploration"""
+    import logging
+    logging.disable(logging.CRITICAL)
+    kind, pid, tier, arg = job
+    out = []
+    info = {}
+    if kind == 'dfs':
+        sc, bound, cap = arg
+
+        def run_one(prefix):
+            ch = dsched.BoundedChooser(prefix, bound)
+            r = datarun.run_scenario(sc, ch, eager=eager, probe=True)
+            out.append(_digest(r, pid, 'dfs'))
+            return ch.taken
+        n, complete = dsched.dfs_schedules(run_one, max_runs=cap)
+        info = {'runs': n, 'complete': complete}
+    elif kind == 'random':
+        seed, n = arg
+        rng = random.Random(seed)
+        for i in range(n):
+            sc = gen_scenario(rng)
+            s2 = rng.getrandbits(32)
+            if i % 2 == 0:
+                ch = dsched.PCTChooser(random.Random(s2), depth=rng.choice([1, 2, 3, 5]))
+                src = 'random'
+            else:
+                ch = dsched.RandomChooser(random.Random(s2))
+                src = 'random'
+            r = datarun.run_scenario(sc, ch, eager=('writer',))
+            out.append(_digest(r, pid, src))
+    elif kind == 'corpus':
+        for fn, sc, schedule in corpus_cases(pid):
+            r = replay_run(sc, schedule)
+            out.append(_digest(r, pid, 'corpus:' + fn))
+    return kind, info, out
+
+
 def explore(ctx, res, pid):
+    import multiprocessing
     rng = ctx.rng
     tier = ctx.tier
-    runs = []
     res.rule = ('real DataProviderServer under the deterministic scheduler; scenarios: 1..3 items, per-item alternating SUB/USB histories of length 1..6 '
                 'pipelined in one chunk or spread over the run, adapter outcomes per call (snapshot True/False/raises; subscribe / unsubscribe return, '
                 'SubscribeError, FailureError, RuntimeError, KeyError), listener calls nested in subscribe()/unsubscribe() and from 0..3 adapter threads, '
                 'pool sizes 1,2,3,8; schedules: corpus, bounded-exhaustive DFS of small single-item scenarios, PCT and uniform random; each run is replayed '
-                'step by step through Model/Item.v (labels accepted, lines per step, final per-item state) and judged by the oracle of the property; '
-                'non-trivial = distinct (scenario, schedule) with at least two threads interleaved')
-    viol = []
-
-    def judge(r, src):
-        F = datarun.Facts(r)
-        for detail, key in datarun.ORACLES[pid](r, F):
-            viol.append({'case': {'scenario': r.sc.describe(), 'schedule': [c for c, _ in r.taken], 'source': src},
-                         'detail': detail, 'key': dict(key), 'kind': 'schedule'})
-        if r.crashes:
-            viol.append({'case': {'scenario': r.sc.describe(), 'schedule': [c for c, _ in r.taken], 'source': src},
-                         'detail': 'a library thread / pool job died with %r' % (r.crashes[0],), 'key': {'kind': 'crash'}, 'kind': 'schedule'})
-        res.evaluations += 1
-        if len(r.taken) >= 2:
-            res.nontrivial.add((json.dumps(r.sc.describe(), sort_keys=True, default=str), tuple(c for c, _ in r.taken)))
-        if r.status != 'quiescent':
-            res.count('status:' + r.status)
-
-    # corpus first
-    for fn, sc, schedule in corpus_cases(pid):
-        r = replay_run(sc, schedule)
-        runs.append(r)
-        judge(r, 'corpus:' + fn)
-        res.count('corpus')
-    # bounded-exhaustive DFS
+                'step by step through Model/Item.v (labels accepted, lines per step, invariants and monitors of ItemSpec.v along the trace, final per-item state) '
+                'and judged by the oracle of the property; non-trivial = distinct (scenario, schedule) with at least two scheduling decisions')
     bound = 2 if tier == 'quick' else 3
-    cap = 1500 if tier == 'quick' else 60000
+    cap = 600 if tier == "quick" else 40000
+    nrand = 1600 if tier == "quick" else 40000
+    nproc = min(8, multiprocessing.cpu_count())
+    jobs = [('corpus', pid, tier, None)]
+    smalls = small_scenarios(tier)
+    for sc in smalls:
+        jobs.append(('dfs', pid, tier, (sc, bound, cap)))
+    shard = max(50, nrand // (nproc * 2))
+    k = 0
+    while k < nrand:
+        jobs.append(('random', pid, tier, (rng.getrandbits(40), min(shard, nrand - k))))
+        k += shard
+    with multiprocessing.get_context('fork').Pool(nproc) as pool:
+        results = pool.map(_work, jobs, chunksize=1)
+    preps = []
+    viol = []
     complete_all = True
     dfs_total = 0
-    for sc in small_scenarios(tier):
-        def run_one(prefix, sc=sc):
-            ch = dsched.BoundedChooser(prefix, bound)
-            r = datarun.run_scenario(sc, ch, eager=eager, probe=True)
-            runs.append(r)
-            judge(r, 'dfs')
-            return ch.taken
-        n, complete = dsched.dfs_schedules(run_one, max_runs=cap)
-        dfs_total += n
-        complete_all = complete_all and complete
-        res.count('dfs-scenario')
+    steps = 0
+    for kind, info, out in results:
+        if kind == 'dfs':
+            dfs_total += info['runs']
+            complete_all = complete_all and info['complete']
+            res.count('dfs-scenario')
+        for d in out:
+            res.evaluations += 1
+            res.count(kind)
+            steps += d['steps']
+            preps.append(d['prep'])
+            viol += d['viol']
+            if d['ntaken'] >= 2:
+                res.nontrivial.add((json.dumps(d['prep']['scenario'], sort_keys=True, default=str), tuple(d['prep']['schedule'])))
+            if d['status'] != 'quiescent':
+                res.count('status:' + d['status'])
+            if kind == 'random' and res.evaluations % 400 == 0:
+                res.sample({'scenario': d['prep']['scenario'], 'schedule': d['prep']['schedule'][:60], 'status': d['status'], 'lines': d['lines']})
     res.extra['dfs_runs'] = dfs_total
     res.extra['dfs_preemption_bound'] = bound
     res.extra['dfs_complete_within_bound'] = complete_all
+    res.extra['worker_processes'] = nproc
     res.exhaustive = bool(complete_all)
-    res.exhaustive_note = ('all schedules with at most %d preemptions of %d small single-item scenarios (writer and socket reads scheduled eagerly)'
-                           % (bound, len(small_scenarios(tier))))
-    # PCT + random
-    nrand = 600 if tier == 'quick' else 30000
-    for i in range(nrand):
-        sc = gen_scenario(rng)
-        seed = rng.getrandbits(32)
-        if i % 2 == 0:
-            ch = dsched.PCTChooser(random.Random(seed), depth=rng.choice([1, 2, 3, 5]))
-            res.count('pct')
-        else:
-            ch = dsched.RandomChooser(random.Random(seed))
-            res.count('random')
-        r = datarun.run_scenario(sc, ch, eager=('writer',))
-        runs.append(r)
-        judge(r, 'random')
-        if i % 150 == 0:
-            res.sample({'scenario': sc.describe(), 'schedule': [c for c, _ in r.taken][:60], 'status': r.status,
-                        'lines': [p[3] for p in datarun.Facts(r).puts][:12]})
-    # correspondence with the model (batched)
-    B = 400
-    for i in range(0, len(runs), B):
-        for d in datarun.compare_with_model(ctx, runs[i:i + B]):
-            r = d.pop('run')
-            res.disagreements.append({'case': {'scenario': r.sc.describe(), 'schedule': [c for c, _ in r.taken]},
+    res.exhaustive_note = ('all schedules with at most %d preemptions of %d small scenarios (writer and socket reads scheduled eagerly)%s'
+                           % (bound, len(smalls), '' if complete_all else ' — NOT complete: run cap %d per scenario reached' % cap))
+    B = 500
+    for i in range(0, len(preps), B):
+        for d in datarun.compare_prepared(ctx, preps[i:i + B]):
+            pz = d['prep']
+            res.disagreements.append({'case': {'scenario': pz['scenario'], 'schedule': pz['schedule']},
                                       'model': d.get('detail'), 'impl': 'see detail', 'relation': d['relation']})
-    res.traces = len(runs)
-    res.extra['steps_executed'] = sum(len(r.trace) for r in runs)
-    # minimise and report
+    res.traces = len(preps)
+    res.extra['steps_executed'] = steps
     seen = set()
     for v in viol:
         k = json.dumps(v['key'], sort_keys=True)
